@@ -317,6 +317,12 @@ func runAdmissionWL(e *Env) {
 				}
 				e.Viol("C14", "A1", sig, "%s", desc)
 			}
+			if r.Known != nil && r.BodyOK && !(r.Code == 200 && decoded) {
+				// whatever the hook did, a well-formed request to a registered path gets a verdict: an
+				// AdmissionReview with a response (a bare HTTP error is no denial; the API server would
+				// apply the failure policy instead)
+				e.Viol("C14", "A5", "no-verdict", "%s", desc)
+			}
 			if r.Code == 200 && decoded && review.Response.UID != r.UID {
 				e.Viol("C14", "A2", "uid-not-echoed", "%s", desc)
 			}
@@ -604,6 +610,8 @@ func runConversionWL(e *Env) {
 			oc = stepOutcome{"message", "cannot convert " + uid + " at " + shortVer(from)}
 		case k == 2 && !e.CfgIs("faults", "exit"):
 			oc.Kind = "count"
+		case k == 3:
+			oc.Kind = "empty" // exits 0 and writes nothing to the response file
 		}
 		outcomes[uid] = append(outcomes[uid], oc)
 		var conv []any
@@ -620,6 +628,8 @@ func runConversionWL(e *Env) {
 			conv = append(conv, n)
 		}
 		switch oc.Kind {
+		case "empty":
+			simrt.Count("fault:conversion-empty-response")
 		case "exit":
 			x.Fail = true
 			simrt.Count("fault:conversion-hook-exit")
